@@ -84,7 +84,10 @@ func (p *srvProto) Invoke(ctx context.Context, pkg []byte) []byte {
 	}
 	return []byte{0, 0, 0, 5, 0xaa}
 }
-func (p *srvProto) ParsePackage(b []byte) (int, int) { return protocol.TarsRequest(b) }
+// (the framing decision is the server protocol's own: tars.Protocol.ParsePackage)
+var realSrvProto = tars.NewTarsProtocol(nil, nil, false)
+
+func (p *srvProto) ParsePackage(b []byte) (int, int) { return realSrvProto.ParsePackage(b) }
 func (p *srvProto) InvokeTimeout(pkg []byte) []byte   { return []byte{0, 0, 0, 5, 0xbb} }
 func (p *srvProto) GetCloseMsg() []byte               { return []byte{0, 0, 0, 5, 0xcc} }
 func (p *srvProto) DoClose(ctx context.Context)       {}
@@ -244,13 +247,13 @@ func writeStream(c *scen.Ctx, w func([]byte) error, st *stream, bigOK bool) {
 const srvAddr = "10.0.0.9:2000"
 
 func (s *S) Run(c *scen.Ctx) {
-	s.maxLen = []int{10485760, 64, 1000, 4096}[simrt.Draw(4, "c07.max")]
+	s.maxLen = []int{10485760, 64, 1000, 4096, 200000}[simrt.Draw(5, "c07.max")]
 	protocol.SetMaxPackageLength(s.maxLen)
 	s.pool = []int{0, 0, 1, 3}[simrt.Draw(4, "c07.pool")]
 	simnet.Cfg.Fragment = simrt.Draw(4, "c07.frag") != 0
 	simnet.Cfg.Delay = simrt.Draw(3, "c07.delay") == 2
 	simnet.Cfg.SmallBufs = simrt.Draw(3, "c07.bufs") == 2
-	if s.maxLen > 100000 { // 10 MiB frames: keep the transfer cheap
+	if s.maxLen > 1000000 { // 10 MiB frames: keep the transfer cheap
 		simnet.Cfg.Delay, simnet.Cfg.SmallBufs = false, false
 	}
 	s.srvGot = map[string][]got{}
@@ -259,8 +262,10 @@ func (s *S) Run(c *scen.Ctx) {
 	c.Describe("fragmented_reads", simnet.Cfg.Fragment)
 	tars.VerifFreshApp()
 	budget := 200000
-	if s.maxLen > 100000 {
+	if s.maxLen > 1000000 {
 		budget = 12 << 20
+	} else if s.maxLen > 100000 {
+		budget = 1500000 // several packets of 200 KB: their echoes are written by concurrent handlers
 	}
 	// ---- server side: real TarsServer + tcpHandler, scripted raw writers ----
 	// the other direction: in half of the runs with moderate frame sizes the server echoes every
@@ -268,7 +273,7 @@ func (s *S) Run(c *scen.Ctx) {
 	// while; the frames must come back intact whatever the server's write time-out is
 	writeTO := time.Duration(0)
 	slowReader := time.Duration(0)
-	if s.maxLen <= 100000 && simrt.Draw(2, "c07.echo") == 1 {
+	if s.maxLen <= 1000000 && simrt.Draw(2, "c07.echo") == 1 {
 		s.echo = true
 		writeTO = []time.Duration{0, 300 * time.Millisecond, 3 * time.Second}[simrt.Draw(3, "c07.writeto")]
 		if simrt.Draw(2, "c07.slowreader") == 1 {
